@@ -243,6 +243,13 @@ def rule_handlers(ctx, tu):
         c = tu.classes[b]
         m = c.methods["SampleOnTSample"]
         wl = [n for n in walk(m.body) if n.get("kind") == "WhileStmt"]
+        if not wl:
+            ifs = [n for n in walk(m.body) if n.get("kind") == "IfStmt"]
+            ctx.need(ifs, R, "%s: neither a loop nor a test over the requested times" % m.qual)
+            ctx.violation(R, ifs[0], m.qual, text(ifs[0]), "the requested times that a step has passed are consumed one per "
+                          "step instead of all at once: times clustered inside one step produce records on the following "
+                          "steps (and can be lost at t_max)")
+            continue
         ctx.need(len(wl) == 1, R, "%s: while loop not found" % m.qual)
         facts = set(cxa.cfacts(kids(wl[0])[0], True))
         ctx.check(("t_samples[sample_pos] <= t", True) in facts and ("sample_pos < n_samples", True) in facts, R, wl[0], m.qual,
